@@ -111,7 +111,7 @@ def rbAllowed (phase : Nat) : List String :=
   -- widening reads, so it is not observed
   if phase = 1 then ["w", "r", "full", "rbreload", "rbend", "punch", "rbabort"]
   else if phase = 5 then ["w", "r", "full", "rbend"]   -- after an interrupted rebuild
-  else ["w", "r", "full", "holes", "loc", "meta", "imeta", "apply", "lunmap", "rbpromote", "rbend", "cands", "punch", "cmp", "csnap", "killq", "crevert"]
+  else ["w", "r", "full", "holes", "loc", "meta", "imeta", "apply", "lunmap", "lunmapw", "rbpromote", "rbend", "cands", "punch", "cmp", "csnap", "killq", "crevert"]
 
 partial def loop (h : IO.FS.Stream) (out : IO.FS.Stream) (r : Rep) : IO Unit := do
   let line ← h.getLine
@@ -132,6 +132,15 @@ partial def loop (h : IO.FS.Stream) (out : IO.FS.Stream) (r : Rep) : IO Unit := 
       if r.rb ≠ 3 ∨ r.qDead ∨ !r.isOpen ∨ !r.inVolume off len then do out.putStrLn "inadmissible"; loop h out r else
       let (r', o) := r.step (.write off len tag)
       out.putStrLn (showOut o ++ " reps=2"); loop h out { r' with qDead := true }
+    | _, _, _ => out.putStrLn "bad-op"; loop h out r
+  | ["lunmapw", a, b, c] =>   -- UpdateLUNMap with one foreground write between its preload pass and the merge
+    match a.toNat?, b.toNat?, c.toNat? with
+    | some off, some len, some tag =>
+      if r.rb ≠ 2 ∨ !r.isOpen ∨ !r.inVolume off len then do out.putStrLn "inadmissible"; loop h out r else
+      let (r1, o) := r.step (.write off len tag)
+      match o with
+      | .ok => do out.putStrLn "ok"; loop h out { r1 with dd := r.dd.lunmapAfter r1.dd, rb := 4 }
+      | _ => do out.putStrLn "inadmissible"; loop h out r
     | _, _, _ => out.putStrLn "bad-op"; loop h out r
   | ["rbabort"] =>   -- the rebuild is interrupted before the transfer: the newcomer stays WO, never readable
     if r.rb ≠ 1 then do out.putStrLn "inadmissible"; loop h out r else
